@@ -59,7 +59,7 @@ Definition renc_fl (f : rfl) : list Z :=
   | RSelect => [0] | RWoke SNow => [1] | RWoke STimer => [2] | RWoke SQuit => [3]
   | RRefresh None => [4] | RRefresh (Some n) => [5; Z.of_nat n] | RExited => [6]
   end.
-Definition renc_sp (p : rsp) : Z := match p with RS0 => 0 | RSSend => 1 | RSClose => 2 | RSDone => 3 end.
+Definition renc_sp (p : rsp) : Z := match p with RS0 => 0 | RSClose => 2 | RSDone => 3 end.
 Definition renc (s : rdeb) : list Z :=
   [Z.b2z (r_stopped s); Z.b2z (r_now s); Z.b2z (r_armed s); Z.b2z (r_timerc s);
    match r_bc s with None => -1 | Some n => Z.of_nat n end; Z.b2z (r_quit_closed s);
@@ -74,8 +74,8 @@ Fixpoint add_new (enc : rdeb -> list Z) (x : rdeb) (acc : list rdeb) : list rdeb
 Definition dedup_r (l : list rdeb) : list rdeb := fold_left (fun acc x => add_new renc x acc) l [].
 
 Definition r_internal_labels (s : rdeb) : list rlabel :=
-  [RFlWake SNow 0; RFlWake STimer 0; RFlLock]
-  ++ flat_map (fun e => [RFlWake SQuit (fst e); RStopLock (fst e); RStopClose (fst e)]) (r_stoppers s).
+  [RFlWake SNow; RFlWake STimer; RFlWake SQuit; RFlLock]
+  ++ flat_map (fun e => [RStopLock (fst e); RStopClose (fst e)]) (r_stoppers s).
 
 Definition r_succ (s : rdeb) : list rdeb :=
   flat_map (fun l => match rstep s l with Some s' => [s'] | None => [] end) (r_internal_labels s).
